@@ -5,7 +5,7 @@ import XrsVerif.Proofs.KSimp
   (layer T3, `dirF`) and the KLang kernel `Gen.calc_direction` (layer T1, `Prox.bearing`, the function the bearing
   theorems of Props/C06.lean are about) compute the same function on every number type.
 -/
-namespace XrsVerif.IL
+namespace XrsVerif.IL.Px
 open XrsVerif XrsVerif.Prox
 variable {F : Type} [Fl F]
 
@@ -25,4 +25,4 @@ theorem dirF_eq_bearing (x1 x2 y1 y2 : F) : dirF x1 x2 y1 y2 = bearing x1 x2 y1 
       | true => ksimp [bearing, Gen.calc_direction, dirEnv, h0', hd, h1, h2, setVar]
       | false => ksimp [bearing, Gen.calc_direction, dirEnv, h0', hd, h1, h2, setVar]
 
-end XrsVerif.IL
+end XrsVerif.IL.Px
